@@ -614,7 +614,8 @@ class yanny(OrderedDict):
         for c in self.columns(structure):
             typ = self.basetype(structure, c)
             if typ == 'char':
-                d = "S{0:d}".format(self.char_length(structure, c))
+                # numpy does not accept sub-arrays of zero-width strings.
+                d = "S{0:d}".format(max(self.char_length(structure, c), 1))
             elif self.isenum(structure, c):
                 d = "S{0:d}".format(max([len(x) for x in
                                          self._enum_cache[typ]]))
